@@ -251,6 +251,78 @@ def main():
             junk()
             if _ % 7 == 0:
                 lk.changed(None)
+    elif which == "stale_ro_after_reader_refresh":
+        # Deterministic stand-in for a thread switch: a verifying registry's lookup notices a generation
+        # bump and refreshes the registry's resolution order (VerifyingAdapterLookup.changed ->
+        # registry._refresh_ro); exactly between computing the order and storing it, "the mutator
+        # thread" assigns ``__bases__``.  The stale order must not survive.
+        from zope.interface import ro as zro
+        from zope.interface.adapter import VerifyingAdapterRegistry
+        base, other = VerifyingAdapterRegistry(), VerifyingAdapterRegistry()
+        reg = VerifyingAdapterRegistry((other,))
+        base.register([I], P, "", "from-base")
+        other.register([I], P, "", "from-other")
+        expect(reg.lookup([I], P, ""), "from-other", "warm-up lookup")
+        orig, armed = zro.ro, [True]
+
+        def racing_ro(C, *a, **k):
+            r = orig(C, *a, **k)
+            if armed[0] and C is reg:
+                armed[0] = False
+                state["n"] += 1
+                reg.__bases__ = (base,)
+            return r
+
+        zro.ro = racing_ro
+        try:
+            other.register([I], P, "x", "bump")
+            got = reg.lookup([I], P, "")
+        finally:
+            zro.ro = orig
+        names = lambda l: ["reg" if r is reg else "base" if r is base else "other" for r in l]   # noqa: E731
+        if got not in ("from-other", "from-base"):
+            failures.append("interrupted lookup returned %r" % (got,))
+        if names(reg.ro) != ["reg", "base"] or reg.lookup([I], P, "") != "from-base":
+            failures.append("__bases__ is %s but reg.ro is %s and lookups keep answering %r"
+                            % (names(reg.__bases__), names(reg.ro), reg.lookup([I], P, "")))
+        if not state["n"]:
+            failures.append("the scenario did not reach registry._refresh_ro through ro.ro")
+    elif which == "concurrent_changed_unsubscribe":
+        # Deterministic stand-in for two threads inside AdapterLookupBase.changed() of the same lookup
+        # object (the lookups of a verifying registry call changed() themselves when they notice a
+        # generation bump): while one of them is cancelling a subscription, the other one runs changed()
+        # completely.  Nobody may see an exception, and the subscription must be cancelled exactly once.
+        from zope.interface.adapter import VerifyingAdapterRegistry
+        from zope.interface.interface import InterfaceClass
+        reg = VerifyingAdapterRegistry()
+        K = InterfaceClass("K", (Interface,), {})
+        reg.register([K], P, "", "v")
+        expect(reg.lookup([K], P, ""), "v", "warm-up lookup")        # subscribes the lookup object to K
+        lookup_obj = reg._v_lookup
+        orig_unsub = K.unsubscribe
+        armed = [True]
+
+        def racing_unsubscribe(dependent):
+            if armed[0] and dependent is lookup_obj:
+                armed[0] = False
+                state["n"] += 1
+                lookup_obj.changed(None)          # "the other thread"
+            return orig_unsub(dependent)
+
+        K.unsubscribe = racing_unsubscribe
+        try:
+            try:
+                reg.register([K], P, "x", "w")        # the mutator: ... ; changed()
+            except Exception as e:   # noqa
+                failures.append("register() raised %s: %s" % (type(e).__name__, str(e)[:120]))
+            expect(reg.lookup([K], P, "x"), "w", "lookup after the mutation")
+        finally:
+            del K.unsubscribe
+        left = K.dependents.get(lookup_obj, 0)
+        if left not in (0, 1):
+            failures.append("the lookup object is subscribed %d times to K" % left)
+        if not state["n"]:
+            failures.append("the scenario did not reach Specification.unsubscribe")
     else:
         failures.append("unknown scenario " + which)
     _boot.write_result({"summary": "survived, %d callbacks fired" % state["n"], "failures": failures})
